@@ -113,6 +113,15 @@ Proof.
     destruct (_ <? _); reflexivity.
 Qed.
 
+(* Diagnostic::labels for ParseError: the one label is (complete_offset, invalid_encoding_len) -- the model's [pe_label] *)
+Lemma gen_pe_labels_eq e subject :
+  gen_ParseError_labels e subject =
+  match pe_label (model_pe e) subject with Ret x => Ret (Some x) | Panic => Panic | OutOfFuel => OutOfFuel end.
+Proof.
+  unfold gen_ParseError_labels, pe_label. rewrite gen_pe_complete_offset_eq, gen_pe_invalid_encoding_len_eq.
+  destruct (pe_invalid_encoding_len (model_pe e) subject); reflexivity.
+Qed.
+
 Lemma gen_pe_is_no_leading_slash_eq e :
   gen_ParseError_is_no_leading_slash e = Ret (match model_pe e with NoLeadingSlash => true | _ => false end).
 Proof. destruct e; reflexivity. Qed.
@@ -174,4 +183,15 @@ Proof.
     injection Hl as <- <-.
     exists a, rest, (pe_complete_offset (Pointer.InvalidEncoding po so)), po, so, l'.
     repeat split; try assumption; try reflexivity.
+Qed.
+
+(* the label that Diagnostic::labels computes for the string that failed to parse lies inside it and starts at the offence *)
+Theorem gen_parse_error_label_inside : forall (s : str) (e : ParseError),
+  gen_validate s = Ret (Err e) ->
+  exists o l, gen_ParseError_labels e s = Ret (Some (o, l)) /\ o + l <= len s /\
+              gen_ParseError_complete_offset e = Ret o.
+Proof.
+  intros s e H. apply gen_validate_err_is_model in H as [V E].
+  pose proof (label_inside s _ V) as (o & l & Hl & Hin & Ho & _).
+  exists o, l. rewrite gen_pe_labels_eq, Hl, gen_pe_complete_offset_eq, <- Ho. repeat split; try reflexivity. exact Hin.
 Qed.
